@@ -7,7 +7,7 @@ PROPERTY_ID = "C14"
 RULE = ("for each honest (seed, message) pair: the honest triple, all 512 single-bit flips of the signature, every bit of the key (256), every bit of the message "
         "(<= 16 bytes), S + k*L for every k with S + kL < 2^256; public keys and R drawn from the 8 small-order points, their non-canonical encodings "
         "(y+p, x=0 with sign bit), strings that are not points, the all-zero key; crafted (A small-order, S=0, R in the small subgroup) triples that satisfy the "
-        "cofactorless equation; pattern triples; the expected verdict is computed for every case by executing the statement in python (key decodes "
+        "cofactorless equation; constructed (identity key, R = enc(S0*B), S0 + k*L) signatures for S0 = 2^k, 2^k - 1 and boundary values (canonical accepted, aliases rejected); pattern triples; the expected verdict is computed for every case by executing the statement in python (key decodes "
         "permissively and is not all-zero, S < L, encode(S*B - h*A) == R bytewise); non-trivial = mutated or adversarial case; distinct = program text")
 ASSUMPTIONS = ["python RFC 8032 arithmetic as in C13", "point decoding is permissive (y reduced mod p, x = 0 accepted with either sign), as in ref10 and this crate; "
                "the property lists non-canonical encodings separately from non-points"]
@@ -121,6 +121,22 @@ def crafted_cases(tier):
             for r in so_enc:
                 for s in (0, L):
                     out.append(case(msg, a, r + s.to_bytes(32, "little")))
+    # constructed signatures with chosen S under the identity key (h*A is the identity for every h, so R = enc(S*B) verifies):
+    # (R, S0) must be accepted for canonical S0, (R, S0 + L) and other non-canonical aliases must be rejected for every S0 shape
+    ident = curve.pt_encode(curve.IDENT)
+    s0s = [0, 1, 2, L - 1, L - 2, (1 << 252) - 1, 1 << 251]
+    s0s += [(1 << k) - 1 for k in range(1, 253)] + [1 << k for k in range(0, 252)]
+    for s0 in s0s:
+        if s0 >= L:
+            continue
+        r = curve.pt_encode(curve.base_mul(s0))
+        msg = b"chosen-S"
+        out.append(case(msg, ident, r + s0.to_bytes(32, "little")))
+        k = 1
+        while s0 + k * L < (1 << 256):
+            if k in (1, 2, 15) or (s0 + (k + 1) * L) >= (1 << 256):
+                out.append(case(msg, ident, r + (s0 + k * L).to_bytes(32, "little")))
+            k += 1
     # pattern triples
     for k in (5, 6, 7, 2):
         out.append(case(pat(k, 0, 20), pat(k, 20, 32), pat(k, 60, 64)))
